@@ -57,6 +57,7 @@ Builtin(sig, args) ==
       [] sig.sem = "probe"  -> ProbeResult(sig, args)
       [] sig.sem = "ct"     -> LRes(TRUE)          \* constant bodies used by System.tla
       [] sig.sem = "cf"     -> LRes(FALSE)
+      [] sig.sem = "v1"     -> VRes(Num(1, 0))     \* a ValueType constant (the subclass's own 'f' in System.tla)
 
 RECURSIVE ApplySel(_, _, _, _), ApplySeg(_, _, _, _), EvalSegs(_, _, _, _), EvalQ(_, _, _, _),
           Test(_, _, _, _), ValueOf(_, _, _, _), Call(_, _, _, _), ArgFor(_, _, _, _, _)
